@@ -25,6 +25,18 @@ STR = ['a', 'b', 'x y', '', '1', 'true', 'null', 'ünï', 'a=b', 'k:v', '-', '--
 FORMATS = ['json', 'yaml', 'toml', 'jsonl', 'json-pretty', 'yml']
 
 
+import re
+from ..val import strings_of
+BIGHEX = re.compile(r'^[-+]?0[xXoObB][0-9a-fA-F_]+$')
+
+
+def overflows(x):
+    try:
+        return abs(int(x.replace('_', ''), 0)) >= 2**63
+    except ValueError:
+        return False
+
+
 class Invalid(Exception):
     pass
 
@@ -275,6 +287,8 @@ def check_case(ctx, case):
             if o['err'] is not None:
                 return res.skip('bkl cannot write this value as %s' % fmt)
             txt = out_bytes(o).decode()
+            if fmt in ('yaml', 'yml') and any(BIGHEX.match(x) and overflows(x) for x in strings_of(val)):
+                return res.skip('known finding C05-yaml-overflowing-hex-lookalike-unquoted')
             texts[(fmt, json.dumps(val, sort_keys=True))] = txt
             # independent decoder must give the value back
             try:
